@@ -5,7 +5,12 @@ import (
 	"strings"
 
 	z "github.com/Oudwins/zog"
+	"github.com/Oudwins/zog/conf"
+	"github.com/Oudwins/zog/i18n"
+	"github.com/Oudwins/zog/i18n/en"
+	"github.com/Oudwins/zog/i18n/es"
 	p "github.com/Oudwins/zog/internals"
+	"github.com/Oudwins/zog/zconst"
 	"github.com/Oudwins/zog/parsers/zjson"
 	v "github.com/Oudwins/zog/zzverif"
 )
@@ -21,8 +26,8 @@ func init() { Registry["C07"] = C07_Run }
 //  hist/<prior>/<probe>  explicit histories: a prior call (options, outcome, optional Collect)
 //                   followed by the probe, compared with the probe alone.
 
-var c07Probes = []string{"int-test", "int-coerce", "int-required", "struct", "slice", "custom-issue", "ptr-validate", "null-json", "msgfunc", "shared-schema"}
-var c07Priors = []string{"ctxvalue", "formatter", "failing-struct", "collect-map", "collect-list", "catching", "panicking", "null-json", "shared-then-collect"}
+var c07Probes = []string{"int-test", "int-coerce", "int-required", "struct", "slice", "custom-issue", "ptr-validate", "null-json", "msgfunc", "shared-schema", "outside-tests", "i18n-default"}
+var c07Priors = []string{"ctxvalue", "formatter", "failing-struct", "collect-map", "collect-list", "catching", "panicking", "null-json", "shared-then-collect", "tests-ran", "i18n-es"}
 
 func C07_Jobs() []string {
 	var out []string
@@ -190,6 +195,26 @@ func c07Probe(kind string, g, x int) *c07Obs {
 		obsList(o, c07Shared.Parse(x, &d))
 		var ds struct{ A int }
 		obsMap(o, z.Struct(z.Schema{"a": z.Int().Test(c07SharedTest)}).Parse(map[string]any{"a": x}, &ds))
+	case "outside-tests":
+		// issues built outside any test: a PostTransform error on a schema without tests, and
+		// ctx.Issue() inside a Preprocess function (Parse and Validate)
+		d := "pre"
+		obsList(o, z.String().PostTransform(func(val any, c z.Ctx) error { return errors.New("rejected") }).Parse("abc", &d))
+		n := 0
+		pp := z.Preprocess(func(in int, c z.Ctx) (int, error) { return 0, c.Issue().SetMessage("from preprocess") }, z.Int())
+		obsList(o, pp.Parse(x, &n))
+		n = 3
+		ppv := z.Preprocess(func(in *int, c z.Ctx) (int, error) { return 0, c.Issue().SetMessage("from preprocess") }, z.Int())
+		obsList(o, ppv.Validate(&n))
+		var ds struct{ A string }
+		obsMap(o, z.Struct(z.Schema{"a": z.String().PostTransform(func(val any, c z.Ctx) error { return errors.New("rejected") })}).Parse(map[string]any{"a": "abc"}, &ds))
+	case "i18n-default":
+		// with i18n installed (by C07_Run, once, before the prior call), a call that names no
+		// language is formatted in the default language
+		d := ""
+		obsList(o, z.String().Min(5).Parse("ab", &d))
+		n := 1
+		obsList(o, z.Int().GT(100).Validate(&n))
 	case "custom-issue":
 		d := 0
 		errs := z.Int().TestFunc(func(val any, ctx z.Ctx) bool {
@@ -304,6 +329,20 @@ func c07Prior(kind string) {
 		z.Issues.SanitizeMapAndCollect(z.Struct(z.Schema{"a": z.Int().Test(c07SharedTest)}).Parse(map[string]any{"a": 5}, &ds))
 		z.Int().Test(c07SharedTest).Catch(1).Parse(5, &d)
 		z.Int().GT(100, z.Message("EARLIER MESSAGE")).Catch(1).Parse(5, &d)
+	case "tests-ran":
+		// executions whose last test carried a code, params and an IssuePath (passing and failing)
+		d := ""
+		z.String().Min(1).Max(7, z.IssuePath("stale")).Parse("abc", &d)
+		n := 5
+		z.Int().GT(100, z.IssuePath("stale"), z.Params(map[string]any{"stale": 1})).Validate(&n)
+		var ds struct{ A string }
+		z.Struct(z.Schema{"a": z.String().Min(1).Max(7, z.IssuePath("stale"))}).Parse(map[string]any{"a": "abc"}, &ds)
+	case "i18n-es":
+		// (the installation of i18n belongs to C07_Run: the language must not stick to the installed formatter)
+		d := ""
+		z.String().Min(5).Parse("ab", &d, z.WithCtxValue("lang", "es"))
+		n := 1
+		z.Int().GT(100).Validate(&n, z.WithCtxValue("lang", "es"))
 	case "null-json":
 		var d struct{ A int }
 		z.Struct(z.Schema{"a": z.Int()}).Parse(zjson.Decode(strings.NewReader("null")), &d, z.WithIssueFormatter(staleFormatter))
@@ -344,6 +383,11 @@ func C07_Run(job string) {
 	p.ClearPools()
 	c07Reset()
 	v.MapOrderChoice(false) // the visit order is C09's subject
+	if probe == "i18n-default" {
+		old := conf.IssueFormatter
+		defer func() { conf.IssueFormatter = old }()
+		i18n.SetLanguagesErrsMap(map[string]zconst.LangMap{"en": en.Map, "es": es.Map}, "en")
+	}
 	if a == "step" {
 		v.PoolChoice(true)
 		dirtyPools()
@@ -357,6 +401,9 @@ func C07_Run(job string) {
 	v.PoolChoice(false)
 	p.ClearPools()
 	c07Reset()
+	if probe == "i18n-default" {
+		i18n.SetLanguagesErrsMap(map[string]zconst.LangMap{"en": en.Map, "es": es.Map}, "en") // a fresh installation
+	}
 	clean := c07Probe(probe, g, x)
 	if len(clean.items) > 3 {
 		v.Cover("probe-issue")
